@@ -43,6 +43,8 @@ type PEntry struct {
 	// SystemDir: a directory inside a tree whose destination belongs to the distribution's filesystem package
 	// (SystemDirs): rpm leaves it out like an implied parent, the other formats ship it as the tree has it.
 	SystemDir bool
+	// TreeRoot: the destination directory of a tree entry itself
+	TreeRoot bool
 }
 
 // SystemDirs is the list of directories owned by the distribution's filesystem / logrotate packages, as the tree
@@ -243,7 +245,7 @@ func Plan(list []Entry, packager string, umask os.FileMode, pkgMTime time.Time, 
 				}
 				return pe
 			}
-			add(sysDir(base, PEntry{Dst: asDir(base), Kind: "dir", Owner: o, Group: g, Mode: dirMode(root), ModeFrom: dfrom, MTime: root.MTime}), idx)
+			add(sysDir(base, PEntry{Dst: asDir(base), Kind: "dir", Owner: o, Group: g, Mode: dirMode(root), ModeFrom: dfrom, MTime: root.MTime, TreeRoot: true}), idx)
 			for _, n := range t.Below(root.Rel) {
 				rel := strings.TrimPrefix(n.Rel, root.Rel+"/")
 				dst := NormPath(base + "/" + rel)
@@ -318,12 +320,46 @@ func Plan(list []Entry, packager string, umask os.FileMode, pkgMTime time.Time, 
 			dupKeys = append(dupKeys, k)
 		}
 	}
+	// a tree's directory that belongs to the filesystem package is implied, not claimed: an explicitly declared
+	// directory at the same path takes its place (whatever the order); anything else there collides as usual
 	for _, k := range dupKeys {
-		for _, p := range byPath[k] {
-			if p.e.SystemDir {
-				// a tree's directory that belongs to the filesystem package may be redeclared; which entry wins is not documented
-				return PlanResult{Unclear: "another entry at the system directory " + k + " of a tree"}
+		ps := byPath[k]
+		hasDir := false
+		for _, p := range ps {
+			if !p.e.SystemDir && p.e.Kind == "dir" {
+				hasDir = true
 			}
+		}
+		allSys := true
+		for _, p := range ps {
+			if !p.e.SystemDir {
+				allSys = false
+			}
+		}
+		switch {
+		case hasDir:
+			for _, p := range ps {
+				if p.e.SystemDir && p.e.TreeRoot {
+					// the tree's own destination is a system directory that is also declared explicitly: whether the
+					// tree claims its destination or merely implies it is not documented
+					return PlanResult{Unclear: "an explicit directory at the system-directory destination " + k + " of a tree"}
+				}
+			}
+			var keep []placement
+			for _, p := range ps {
+				if !p.e.SystemDir {
+					keep = append(keep, p)
+				}
+			}
+			byPath[k] = keep
+		case allSys:
+			byPath[k] = ps[:1] // implied by several trees: one directory, the first tree's view of it
+		}
+	}
+	dupKeys = dupKeys[:0]
+	for k, ps := range byPath {
+		if len(ps) > 1 {
+			dupKeys = append(dupKeys, k)
 		}
 	}
 	if len(dupKeys) > 0 {
